@@ -8,6 +8,7 @@ CONSTANTS
   Fmts = {"bc", "bc_idx", "idx_bc"}
   NFiles = {1}
   Lazy = {"none"}
+  ProbeMax = 5
   Touches = {"lookup"}
   Variant = "design"
 CONSTRAINT Emit
